@@ -243,7 +243,7 @@ func (p Profile) Random(r *rand.Rand, sid int) Scenario {
 			s.Gens = append(s.Gens, GenSpec{From: pick(r, p.Types), To: pick(r, p.Types), Mode: pick(r, modes)})
 		}
 		if r.Float64() < p.BadProb {
-			s.Bad = pick(r, []string{"nilarg", "nilvalue", "nonfunc", "nilconv"})
+			s.Bad = pick(r, []string{"nilarg", "nilvalue", "nonfunc", "nilconv", "cyclic"})
 		}
 		if s.Mode == "redefine" {
 			s.HasFilter = r.Intn(4) != 0
